@@ -1,61 +1,110 @@
 #!/venv/bin/python
-"""Write seeded/MATRIX.md and refresh seeded/*/meta.json from a matrix run (tools/seed_matrix.sh output)."""
-import json, os, re, sys
+"""Write seeded/MATRIX.md and refresh seeded/*/meta.json.
+
+usage: tools/seed_meta.py --confirm <file>... --matrix <file>... [--cross <file>...]
+
+--confirm : outputs of tools/seed_confirm.sh (later files override earlier ones per seed)
+--matrix  : outputs of tools/seed_matrix2.sh / seed_run.sh: "<seed> <prop> rc=<n> signature=..." where <prop> is the
+            seed's own property (later files override earlier ones per seed)
+--cross   : the same format for runs of a seed against the check of ANOTHER property
+Everything written about a seed is what those runs printed; nothing is assumed.
+"""
+import json
+import os
+import re
+import sys
+
 ROOT = os.path.dirname(os.path.dirname(os.path.abspath(__file__)))
-lines = [l for l in open(sys.argv[1]) if re.match(r"C\d\d[a-j] C\d\d rc=", l)]
-rows = []
-for l in lines:
-    m = re.match(r"(C\d\d[a-j]) (C\d\d) rc=(\d+)(.*)", l)
-    seed, prop, rc, rest = m.group(1), m.group(2), int(m.group(3)), m.group(4)
-    sigs = sorted(set(re.findall(r"signature=(C\d\d/\S+)", rest)))
-    rows.append((seed, prop, rc, sigs))
-# second argument: output of tools/seed_confirm.sh for every seed; what meta.json says about confirmation is what that run printed
+SEED = r"C\d\d[a-z]"
+
+args = {"--confirm": [], "--matrix": [], "--cross": []}
+cur = None
+for a in sys.argv[1:]:
+    if a in args:
+        cur = a
+    else:
+        args[cur].append(a)
+
 CONF = {}
-if len(sys.argv) > 2:
-    for l in open(sys.argv[2]):
-        m = re.match(r"seeded/(C\d\d[a-j])/? apply=(\S+) tests=\[(.*?)\] demo_patched=(\d+) demo_clean=(\d+)", l)
+for fn in args["--confirm"]:
+    for l in open(fn):
+        m = re.match(rf"seeded/({SEED})/? apply=(\S+) tests=\[(.*?)\] demo_patched=(\d+) demo_clean=(\d+)", l)
         if m:
             CONF[m.group(1)] = {"apply": m.group(2), "tests": m.group(3), "demo_patched": int(m.group(4)), "demo_clean": int(m.group(5))}
+
+
+def rows_of(files):
+    out = {}
+    for fn in files:
+        for l in open(fn):
+            m = re.match(rf"({SEED}) (C\d\d) rc=(\d+)(.*)", l)
+            if m:
+                sigs = sorted(set(re.findall(r"signature=(C\d\d/\S+)", m.group(4))))
+                out.setdefault(m.group(1), {})[m.group(2)] = (int(m.group(3)), sigs)
+    return out
+
+
+OWN = rows_of(args["--matrix"])
+CROSS = rows_of(args["--cross"])
 
 
 def confirmed(c):
     return bool(c) and c["apply"] != "FAIL" and c["tests"].startswith("388 passed") and c["demo_patched"] != 0 and c["demo_clean"] == 0
 
 
-extra = {"C01b": ("C01", 0, [])}
-OBSOLETE = {"C03e": "made harmless by fix b4c4a7a (the shared close_all helper skips objects without aclose, which is all the over-wide ownership filter of this change let through): the demo passes with the patch",
-            "C18b": "made harmless by fix 4e889ba (chain now closes its owned iterators itself): the demo passes with the patch, so it is no longer a property-breaking change"}
+ROUND = {"a": 1, "b": 1, "c": 2, "d": 2, "e": 3, "f": 3, "g": 4, "h": 4, "i": 5, "j": 5, "k": 6, "l": 6}
 out = ["# Seeded changes x checks", "",
-       "Each change was written by an independent sub-agent from the text of one property only, confirmed here",
-       "(`tools/seed_confirm.sh`: applies to /repo HEAD, 388 tests pass, demo fails with / passes without the patch) and run",
-       "(variants a, b: first round; c, d: second round, written knowing only the summaries of the first; e, f: third round,",
-       "written knowing only the summaries of the first two)",
-       "against the quick check of its property with `tools/seed_run.sh` (scratch worktree of /repo HEAD + patch).", "",
-       "| seed | property | summary | needs | caught (exit 1) | signatures (first 3) |", "|---|---|---|---|---|---|"]
-for seed, prop, rc, sigs in rows:
-    if seed in extra and rc == 0 and extra[seed][1] == 1:
-        prop, rc, sigs = extra[seed]
+       "Each change was written by an independent sub-agent from the text of one property only (round = pair of variant letters:",
+       "a,b / c,d / e,f / g,h / i,j / k,l; every later round was told the one-line summaries of the earlier ones).  Every line below is",
+       "what two scripts printed on scratch worktrees of the current `/repo` HEAD: `tools/seed_confirm.sh` (the patch applies, the 388",
+       "tests pass with it, the demo fails with it and passes without it) and `tools/seed_run.sh` (quick check of the seed's own property",
+       "against HEAD + patch; run from a committed snapshot of `/verif`).  What was missed when a round was first run, and what was",
+       "added because of it, is in DESIGN.md section 8.", "",
+       "| seed | round | summary | needs | still a breaking change on HEAD | caught by its own check (exit 1) | signatures (first 3) |", "|---|---|---|---|---|---|---|"]
+n = {"seeds": 0, "breaking": 0, "caught": 0, "cross": 0, "not": []}
+for seed in sorted(os.listdir(os.path.join(ROOT, "seeded"))):
+    if not re.fullmatch(SEED, seed):
+        continue
     mp = os.path.join(ROOT, "seeded", seed, "meta.json")
     meta = json.load(open(mp))
+    prop = seed[:3]
     c = CONF.get(seed)
-    meta["confirmed"] = {"on": "/repo HEAD at the time of the matrix run (scratch worktree)", "how": "tools/seed_confirm.sh seeded/" + seed,
-                         "observed": c if c else "not re-run for this matrix", "still_a_breaking_change": confirmed(c) if c else None}
-    meta["checked_with"] = f"tools/seed_run.sh seeded/{seed} {prop}  (VERIF_REPO=<worktree with patch> ./check {prop} --tier quick)"
-    meta["caught"] = bool(rc == 1)
-    if seed in OBSOLETE:
-        meta["obsolete"] = OBSOLETE[seed]
-    meta["signatures"] = sigs[:8]
+    own = OWN.get(seed, {}).get(prop)
+    cross = {p: v for p, v in CROSS.get(seed, {}).items() if p != prop}
+    meta["confirmed"] = {"how": "tools/seed_confirm.sh seeded/" + seed, "observed": c if c else "not re-run",
+                         "still_a_breaking_change": confirmed(c) if c else None}
+    meta["checked_with"] = f"tools/seed_run.sh seeded/{seed} {prop}"
+    meta["caught"] = (own[0] == 1) if own else None
+    meta["signatures"] = own[1][:8] if own else []
+    meta["caught_by_other_checks"] = {p: v[1][:4] for p, v in cross.items() if v[0] == 1}
+    meta.pop("obsolete", None)
+    if c and not confirmed(c):
+        meta["obsolete"] = "no longer a breaking change on the current /repo HEAD (a later fix: commit made it harmless): " + json.dumps(c)
     json.dump(meta, open(mp, "w"), indent=1)
-    summ = str(meta.get("summary", "")).replace("|", "/")[:160]
-    need = str(meta.get("needs_to_manifest", "")).replace("|", "/")[:140]
-    verdict = 'yes' if rc == 1 else 'NO' if rc == 0 else 'machinery error'
-    if c and not confirmed(c) and seed not in OBSOLETE:
-        verdict = f"stale on HEAD (apply={c['apply']}, demo with patch exits {c['demo_patched']}, without {c['demo_clean']}); check said: " + verdict
-    if seed in OBSOLETE:
-        verdict = 'obsolete (' + {"C18b": "was caught: C18/chain/unreleased-unstarted-source-after-cancel", "C03e": "was caught: C03/chain/result-differs-with-iterable-flavour"}[seed] + ")'
-    out.append(f"| {seed} | {prop} | {summ} | {need} | {verdict} | {'<br>'.join(sigs[:3])} |")
-out += ["", "Not caught: C01b (a tee child yields a fetched item directly instead of through its buffer) only manifests with concurrent",
-        "consumers, no lock and a suspending source - outside the premise of C09 ('a lock is supplied, or the source never suspends'), and",
-        "sequential use (C01) is unaffected; on the unchanged tree that configuration already loses items (the negative Tee config)."]
+    n["seeds"] += 1
+    brk = confirmed(c) if c else None
+    n["breaking"] += bool(brk)
+    if own is None:
+        verdict = "not run"
+    elif own[0] == 1:
+        verdict = "yes"
+        n["caught"] += bool(brk)
+    elif own[0] == 0:
+        others = [p for p, v in cross.items() if v[0] == 1]
+        verdict = "NO" + (f" (caught by {', '.join(others)})" if others else "")
+        if brk:
+            n["cross"] += bool(others)
+            if not others:
+                n["not"].append(seed)
+    else:
+        verdict = f"machinery error (exit {own[0]})"
+        if brk:
+            n["not"].append(seed)
+    summ = str(meta.get("summary", "")).replace("|", "/").replace("\n", " ")[:160]
+    need = str(meta.get("needs_to_manifest", "")).replace("|", "/").replace("\n", " ")[:140]
+    sigs = own[1][:3] if own else []
+    out.append(f"| {seed} | {ROUND.get(seed[3], '?')} | {summ} | {need} | {'yes' if brk else 'NO (obsolete)' if brk is False else '?'} | {verdict} | {'<br>'.join(sigs)} |")
+out += ["", f"Totals: {n['seeds']} seeds, {n['breaking']} still breaking on HEAD; of those {n['caught']} caught by the check of their own property,",
+        f"{n['cross']} more by the check of another property, not caught by any: {', '.join(n['not']) or 'none'}."]
 open(os.path.join(ROOT, "seeded", "MATRIX.md"), "w").write("\n".join(out) + "\n")
-print(len(rows), "rows")
+print(n)
